@@ -4,7 +4,7 @@ import json, os
 ROOT = os.path.dirname(os.path.dirname(os.path.abspath(__file__)))
 props = [json.loads(l)["id"] for l in open(os.path.join(ROOT, "properties.jsonl"))]
 TECH = {
-"C01": "runtime monitoring: ground-truth round-trip oracle over seeded hostile workloads (all rates, engines, API layers; poisoned working memory on half of the cases); ASan in thorough",
+"C01": "runtime monitoring: ground-truth round-trip oracle over seeded hostile workloads (all rates, engines, API layers, fresh and pre-used decoders, structured and random data, poisoned working memory on half of the cases); every subset for tiny configurations; ASan in thorough",
 "C02": "runtime monitoring: reference-model differential - closed-form scaled-Cauchy generator matrix over the harness's own GF(2^16), and the ancestor crate reed-solomon-16 0.1.0",
 "C03": "runtime monitoring: cross-engine differential vs Naive on contract-defined outputs incl. the Neon source on emulated intrinsics, byte-exact range confinement; thorough adds ASan, valgrind memcheck, Miri x86 (+avx2) and Miri aarch64 executing the real Neon engine",
 "C04": "runtime monitoring: slot-decomposition metamorphic oracle with poisoned working memory (hook H1); ASan in thorough",
@@ -13,14 +13,14 @@ TECH = {
 "C07": "runtime monitoring: twin differential over operation streams with injected failing calls, release and overflow-checked builds",
 "C08": "runtime monitoring: exhaustive enumeration of the 65538^2 supports() grid against the README predicate, constructor agreement on the boundary band, round trips of every envelope corner",
 "C09": "runtime monitoring: default codec vs dedicated codec named by an independently written selection rule (grid + histories crossing the rule), API-layer differential",
-"C10": "runtime monitoring: streaming API as executable model of the one-shot API + truth model for returned errors",
+"C10": "runtime monitoring: streaming API as executable model of the one-shot API + truth model for returned errors; iterators with inexact size_hint; calls primed by earlier failing calls",
 "C11": "runtime monitoring: metamorphic permutation / superset oracle + ground truth",
 "C12": "runtime monitoring: accessor model checked after every round over 1-50 consecutive rounds, release and overflow-checked builds",
-"C13": "runtime monitoring: metamorphic linearity relations (additivity, zero, homogeneity with scalars from the harness's own GF)",
-"C14": "runtime monitoring: ISA trace counters + thread-local feature mask (hook H2) around every DefaultEngine call under all four reported subsets; thorough adds Miri builds with {}, +ssse3, +avx2 and aarch64 (unavailable-target-feature UB check + ISA trace)",
+"C13": "runtime monitoring: metamorphic linearity relations (additivity, zero, homogeneity with scalars from the harness's own GF), on fresh encoders and as consecutive rounds of one encoder object",
+"C14": "runtime monitoring: ISA trace counters + thread-local feature mask (hook H2): the trace of DefaultEngine under each of the four reported subsets is compared with the trace of the explicitly chosen best engine on the same operation; thorough adds Miri builds with {}, +ssse3, +avx2 and aarch64 (unavailable-target-feature UB check + ISA trace)",
 "C15": "runtime monitoring: definitional oracles over the harness's own GF(2^16) - every table entry, all 65536 symbols per multiplier and engine, fft/ifft vs polynomial evaluation, eval_poly vs locator sums",
-"C16": "runtime monitoring: fresh-process thread schedules racing lazy table initialisation, digests vs sequential reference, exactly-once / end-before-use checker over the H3 event log, deadlock watchdog; thorough adds ThreadSanitizer (build-std) and Miri many-seeds",
-"C17": "runtime monitoring: counting global allocator around every step of a history run at shard sizes S and 8S (scale differential), need calibrated from fresh constructions, result-address stability",
+"C16": "runtime monitoring: fresh-process thread schedules racing lazy table initialisation (digests vs sequential reference, exactly-once / end-before-use checker over the H3 event log, deadlock watchdog with /proc sampling) and an in-process migration pool (few configurations, objects hopping between threads mid-round, ground truth); thorough adds ThreadSanitizer (build-std) and Miri many-seeds",
+"C17": "runtime monitoring: counting global allocator around every step of a history run at shard sizes S and 8S (scale differential); working-space need calibrated from the crate's own fresh constructions (allocations that scale); result-address stability",
 }
 checks = []
 for p in props:
